@@ -14,6 +14,7 @@ import glob
 import os
 import random
 import struct
+import time
 from concurrent.futures import ThreadPoolExecutor
 from fractions import Fraction
 
@@ -385,12 +386,19 @@ def run_impl(ck, harness, reqs):
             out[start + k] = "HANG"
         else:
             sanit = "Sanitizer" in p.stderr or "runtime error" in p.stderr
-            if not sanit and p.returncode >= 0 and retries < 3:
-                # ended without a sanitizer report or a signal (start failure on an overloaded machine):
-                # not a verdict about the request, run it again
+            if not sanit and p.returncode >= 0:
+                # ended without a sanitizer report or a signal: the harness could not start (overloaded machine):
+                # not a verdict about the request; wait and run it again, give up without a verdict if it persists
                 retries += 1
-                start = start + k
-                continue
+                if retries <= 4:
+                    time.sleep(5 * retries)
+                    start = start + k
+                    continue
+                for i in range(start + k, len(reqs)):
+                    out[i] = "NOT-RUN"
+                ck.notes.append("the harness could not be started (rc=%d): %d inputs not run" %
+                                (p.returncode, len(reqs) - start - k))
+                break
             out[start + k] = "CRASH rc=%d %s" % (p.returncode, p.stderr[:1800])
         retries = 0
         start = start + k + 1
@@ -630,6 +638,8 @@ def run(ck):
 
     for i, (o, s, exp, kinds, origin) in enumerate(reqs):
         a, m = impl[i] or "missing", model[i]
+        if a == "NOT-RUN":
+            continue
         hist_origin[origin.split(":")[0]] = hist_origin.get(origin.split(":")[0], 0) + 1
         rep = {"options": o, "input": s, "input_hex": hx(s), "origin": origin, "implementation": a[:3000],
                "model": m[:3000], "replay": "printf '%s %s\\n' | work/C31/c31h   (harness/C31/harness.cxx)" % (o, hx(s))}
